@@ -410,8 +410,21 @@ impl ExtractorCompactorBackup {
 /// Validate that spans within a segment don't overlap.
 ///
 /// Returns `Ok(())` if all spans are non-overlapping, or `Err` with
-/// the first overlapping pair.
+/// the first overlapping pair. A span with `offset + length > u64::MAX`
+/// is an error as well.
 pub fn validate_spans(spans: &mut [DataSpan]) -> Result<()> {
+    // A span whose end does not fit in u64 lies in no file, and its wrapped
+    // `end()` would hide an overlap from the scan below.
+    if let Some(s) = spans
+        .iter()
+        .find(|s| s.offset.checked_add(s.length).is_none())
+    {
+        return Err(StorageError::Archive(format!(
+            "span end overflows: offset {} length {}",
+            s.offset, s.length
+        )));
+    }
+
     if spans.len() <= 1 {
         return Ok(());
     }
